@@ -631,6 +631,9 @@ func c15Run(c *Case) (out string, fails []Fail) {
 	if c.Kind == 2 {
 		return c15RunClean(c) // util.CleanUTF8 alone, see c15_utf8.go
 	}
+	if c.Kind == 3 {
+		return c15RunLong(c) // one sampled drop on a long rule-defined stream, see c15_w4.go
+	}
 	if (c.Kind != 0 && c.Kind != 1) || len(c.S) < 2 {
 		return "badprog", nil
 	}
